@@ -136,6 +136,16 @@ def _judge_core(ctx, prop, r):
             out.append((f['key'], f['msg']))
     return out
 
+def _any_oom(res):
+    # a call of the history returned info > n (bytes allocated + n): tokens like F0, R0, E5856
+    n = int(res.get('n', 0) or 0)
+    for tok in str(res.get('infos', '')).split(','):
+        try:
+            if int(tok[1:]) > n + 1: return True
+        except ValueError:
+            pass
+    return False
+
 def judge_record(ctx, prop, r):
     """violations of one record as (key, message); keys get a failing-input-class suffix where one applies"""
     out = _judge_core(ctx, prop, r)
@@ -149,6 +159,9 @@ def judge_record(ctx, prop, r):
         elif m.get('class') == 'workspace':
             suff = '|ws:sufficient' if float(c.get('lwfrac', 9)) >= 1.25 else '|ws:insufficient'
             out[:] = [(k + suff, msg) for k, msg in out]
+        elif m.get('class') == 'failsize' and (r.get('result') is None or 'oom_info' in r['result'] or _any_oom(r['result'])):
+            # a call of the history gave up with info > n (or the process stopped through the abort path) in the middle of the factorization
+            out[:] = [(k + '|after-oom', msg) for k, msg in out]
         elif c.get('dyn') and int(c.get('np', 1)) > 1:
             out[:] = [(k + '|cfg:dynamic-snode-store,np>1', msg) for k, msg in out]
         elif c.get('cmd') == 'gssvx' and m.get('prec') in ('c', 'z') and c.get('stype') == 'nr':
@@ -699,9 +712,17 @@ def gen_c12(ctx):
         if c['nrhs'] == 0: c.pop('factored', None)
         elif rng.random() < 0.5: c['factored'] = 1; c.setdefault('trans2', rng.choice([0, 1, 2]))      # rcond and pivot growth are outputs of a FACTORED call too
         out.append(({'variant': 'plain', 'prec': pv[i]}, c))
+    # ?gscon and ?langs called directly with every documented spelling of the norm letter (1, O, o, I, i) on unsymmetric matrices
+    NG = 800 if ctx.quick else 10000
+    for i in range(NG):
+        n = rng.choice([3, 5, 8, 12, 20])
+        c = {'cmd': 'kern', 'sub': 'gscon', 'fam': rng.choice(['arrow', 'rand', 'band', 'skyline', 'grid']), 'n': n, 'dens': round(min(1.0, 3.0 / n), 3), 'orient': rng.choice([0, 1]), 'seed': rng.randrange(1, 1 << 30),
+             'vals': 'generic', 'dom': rng.choice(['row', 'col']), 'rscale': rng.choice([0, 0, 6]), 'bl': 2, 'bu': 1, 'ldens': 0.4, 'maxlen': 3,
+             'np': rng.choice([1, 2, 4]), 'ord': rng.choice([0, 1, 2, 3]), 'w': 2, 'relax': 2, 'maxsup': 8, 'rowblk': 200, 'colblk': 100}
+        out.append(({'variant': 'plain', 'prec': rng.choice(PRECS)}, c))
     return out
 
-PROPS['C12'] = dict(gen=gen_c12, relevant=('C12|',), counters=X_COUNTERS, nontrivial=lambda r: bool((r.get('result') or {}).get('rcond_judged')), batch=25, coverage_extra=cov_equed,
+PROPS['C12'] = dict(gen=gen_c12, relevant=('C12|',), counters=X_COUNTERS + ('gscon_judged',), nontrivial=lambda r: bool((r.get('result') or {}).get('rcond_judged')) or bool((r.get('result') or {}).get('gscon_judged')), batch=25, coverage_extra=cov_equed,
                     rule='expert driver on matrices with prescribed condition number up to 1e-3/eps (geometric / one-small / one-large singular value profiles) and sparse families, both norms (all trans x storage), '
                     'thresholds u in {1,0.5,0.1}, 4 precisions, 1..4 threads; distinct = sha1(case); non-trivial = the rcond bounds were actually judged (kappa*n*u <= 1e-3); '
                     'oracle: explicit extended-precision inverse; 1/kappa <= rcond <= 1/(||A||*||inv(A)e/n||) up to delta = min(0.5, 8 n u kappa growth); info = n+1 iff rcond < eps; '
@@ -713,6 +734,15 @@ def gen_c13(ctx):
     N = 5000 if ctx.quick else 50000
     pv = spread(rng, N, weights=(3, 2, 3, 2))
     out = []
+    # tiny systems (n = 2..4) with several right-hand sides and non-dyadic data: exact residuals next to inexact solutions
+    NTY = 3000 if ctx.quick else 30000
+    for i in range(NTY):
+        prec = rng.choice(PRECS)
+        c = {'cmd': 'gssvx', 'seed': rng.randrange(1, 1 << 30), 'fam': rng.choice(['dense', 'rand', 'band']), 'n': rng.choice([2, 2, 3, 4]), 'dens': 0.8, 'bl': 1, 'bu': 1, 'vals': 'generic', 'dom': rng.choice(['row', 'col', '']),
+             'trans': rng.choice([0, 1, 2]), 'stype': rng.choice(['nc', 'nr']), 'equil': rng.choice([0, 1]), 'nrhs': rng.choice([2, 3, 4]), 'np': rng.choice([1, 2]), 'ord': rng.choice([0, 1, 2, 3]),
+             'u': 1.0, 'w': 2, 'relax': 2, 'maxsup': 8, 'rowblk': 200, 'colblk': 100}
+        if not c['dom']: c.pop('dom')
+        out.append(({'variant': 'plain', 'prec': prec}, c))
     for i in range(N):
         c = gssvx_case(rng, pv[i], ctx.quick, kind='svd' if rng.random() < 0.6 else 'mixed')
         if c['fam'] == 'svd':
@@ -917,6 +947,7 @@ def gen_c10(ctx):
         elif r < 0.4: c['denserow'] = rng.randrange(n)
         elif r < 0.5: c['densecol'] = rng.randrange(n)
         if rng.random() < 0.25: c['randperm'] = 1
+        if rng.random() < 0.35: c['shufrows'] = 1      # row indices of a column in arbitrary order (legal for the format; COLAMD calls it jumbled)
         if rng.random() < 0.1:
             # rectangular: orderings only
             c['sub'] = 'permc'; c['m'] = max(1, n + rng.choice([-3, -1, 2, 7])); c['ord'] = rng.choice([0, 1, 3]); c['transversal'] = 0; c['fam'] = 'rand'; c['dens'] = 0.2
@@ -948,6 +979,7 @@ def gen_c11(ctx):
         c = {'cmd': 'equil', 'sub': sub, 'fam': 'rand', 'n': n, 'm': m, 'dens': rng.choice([0.2, 0.5, 1.0]), 'transversal': 0, 'seed': rng.randrange(1, 1 << 30), 'vals': 'generic'}
         span = {'d': 1000, 'z': 1000, 's': 120, 'c': 120}[prec]
         c['espan'] = rng.choice([0, 3, 30, span // 2, span])
+        if sub == 'laqgs' and rng.random() < 0.5: c['rcfrom'] = 1; c['espan'] = rng.choice([span // 2, span, span]); c['dens'] = rng.choice([0.5, 1.0])
         r = rng.random()
         if r < 0.15: c['emptyrow'] = rng.randrange(m)
         elif r < 0.3: c['emptycol'] = rng.randrange(n)
@@ -1128,6 +1160,19 @@ def gen_c14(ctx):
         c['fill7frac' if rng.random() < 0.7 else 'fill8frac'] = round(rng.choice([0.3, 0.5, 0.7, 0.8, 0.9, 1.0, 1.1, 1.2, 1.4, 1.7, 2.0, 3.0]) + rng.random() * 0.1, 3)
         c['ops'] = 'F,S0'; c['nps'] = str(rng.choice([1, 1, 2, 4]))
         out.append(({'variant': 'asan' if c['mem'] == 0 else 'plain', 'prec': prec, 'per_process': True, 'class': 'capacity', 'dump': False}, c))
+    # size-dependent refusal behind USER_MALLOC: every request of S bytes or more fails, smaller ones succeed (the retry loops
+    # of the initial allocation recover by halving); S swept through the sizes the call asks for; repeated 4 times, the count of
+    # live USER_MALLOC blocks must not grow from repetition to repetition
+    NS2 = 300 if ctx.quick else 4000
+    for i in range(NS2):
+        prec = rng.choice(PRECS)
+        c = hist_base(rng, ctx.quick, nmax=44)
+        c['n'] = max(c['n'], 12)
+        c['ops'] = rng.choice(['F,S0,D', 'V', 'E', 'F,R0,D']); c['nps'] = str(rng.choice([1, 2, 4])); c['reps'] = 4; c['leakcheck'] = 1
+        # sizes: the large arrays are (fill x nnz) x 4..16 bytes; nnz ~ 3n..6n; default fills 20..50
+        c['failsize'] = int(rng.choice([0.02, 0.05, 0.1, 0.2, 0.35, 0.5, 0.7, 1.0, 1.5, 3.0]) * 50 * 5 * c['n'] * 8)
+        c['oomok'] = 1
+        out.append(({'variant': 'asan_um', 'prec': prec, 'per_process': True, 'class': 'failsize', 'dump': False, 'env': {'ASAN_OPTIONS': R_ASAN_LEAK}}, c))
     # (c) failing allocator behind USER_MALLOC: request k and all later ones fail, k = 1..K
     configs = []
     for prec in PRECS:
@@ -1151,11 +1196,18 @@ OOM_MARKS = ('queue_init fails', 'SUPERLU_MALLOC fail', 'Malloc fails', 'malloc 
 def judge_c14(ctx, r, out):
     m = r['meta']; c = r['case']; res = r.get('result')
     cls = m.get('class')
-    if cls not in ('workspace', 'failalloc', 'capacity'):
+    if cls not in ('workspace', 'failalloc', 'capacity', 'failsize'):
         return False
     if r.get('timeout'):
         return False
     err = r.get('stderr') or ''
+    if cls == 'failsize' and res is not None:
+        tmp = []
+        if 'LeakSanitizer' in err:
+            judge_c17(ctx, r, tmp)      # the history ran to its end: whatever is still allocated at exit was lost by a call that returned
+        # calls that RECOVERED from the refusals (info = 0 throughout) must not lose anything; a call that gave up with info > n in the
+        # middle of the factorization is a separate class (known finding: workers leave without releasing their work arrays)
+        out.extend(tmp)          # (judge_record adds the class suffix |after-oom)
     san = r.get('san')
     if san:
         out.append(('C14|%s|%s:%s|%s' % (cls, san['tool'], san['kind'], san['top']), 'sanitizer report under %s: %s' % (cls, san)))
@@ -1202,7 +1254,7 @@ def post_c14(ctx, recs, out):
         if len(v) == 2 and v[0]['result'].get('digest') != v[1]['result'].get('digest') and not v[0]['result'].get('nfail') and not v[1]['result'].get('nfail'):
             out.append(('C14|user-workspace-result-differs', v[1], 'factors/solution with a sufficient caller workspace differ from the internally allocated run (1 thread): %s vs %s' % (v[1]['result'].get('digest'), v[0]['result'].get('digest'))))
 
-PROPS['C14'] = dict(gen=gen_c14, relevant=('C14|', 'C08|reconstruction', 'C08|residual', 'C08|factors-malformed'), counters=H_COUNTERS, batch=20, judge=judge_c14, coverage_extra=cov_c14, post=post_c14,
+PROPS['C14'] = dict(gen=gen_c14, relevant=('C14|', 'C08|reconstruction', 'C08|residual', 'C08|factors-malformed', 'C17|heap-growth', 'C17|leak|'), counters=H_COUNTERS, batch=20, judge=judge_c14, coverage_extra=cov_c14, post=post_c14,
                     timeout_case=20.0, level='fault_enumeration',
                     nontrivial=lambda r: bool(r.get('result')) or bool(r.get('stopped_with_diagnostic')),
                     rule='(a) lwork=-1 queries with sentinel-filled L/U; (b) caller workspace = malloc(lwork) (ASan red zones) for size fractions 0..2 of the query estimate, 1..4 threads, with refactorization and reuse; '
